@@ -1704,6 +1704,56 @@ func ruleAggrKind(p *Prog, r *Result) {
 			})
 		}
 	}
+	// (c) integers are compared as integers only when both are integers: in an Update method, an ordering comparison of
+	// int64 values one of which comes from convertToNumber's integer result (the truncated integer part of a float
+	// argument) is dominated by `the argument is not a float`
+	if conv != nil {
+		ncmp := 0
+		for _, fn := range p.Funcs {
+			if fn.Name() != "Update" || fn.Signature.Recv() == nil {
+				continue
+			}
+			idx := 0
+			allInstrs(fn, func(in ssa.Instruction) {
+				bo, ok := in.(*ssa.BinOp)
+				if !ok {
+					return
+				}
+				switch bo.Op {
+				case token.LSS, token.GTR, token.LEQ, token.GEQ:
+				default:
+					return
+				}
+				fromInt := func(v ssa.Value) bool {
+					ex, ok := v.(*ssa.Extract)
+					if !ok || ex.Index != 0 {
+						return false
+					}
+					c, ok := ex.Tuple.(*ssa.Call)
+					return ok && c.Call.StaticCallee() == conv
+				}
+				if !fromInt(bo.X) && !fromInt(bo.Y) {
+					return
+				}
+				ncmp++
+				idx++
+				guarded := false
+				for _, a := range dominatingAtoms(bo.Block()) {
+					ex, ok := a.X.(*ssa.Extract)
+					if !ok || ex.Index != 2 {
+						continue
+					}
+					if c, ok := ex.Tuple.(*ssa.Call); ok && c.Call.StaticCallee() == conv {
+						if bv, isB := constBool(a.Y); isB && ((a.Op == token.EQL) == bv) == false {
+							guarded = true
+						}
+					}
+				}
+				r.add(guarded, fmt.Sprintf("%s|int-compare#%d", p.FName(fn), idx), p.InstrPos(bo), "the integer comparison is made only when the argument is not a float (its integer image is truncated)")
+			})
+		}
+		r.floor("integer comparisons of an accumulator with its argument", ncmp, 2)
+	}
 	r.floor("accumulator Complete methods", n, 6)
 }
 
